@@ -58,6 +58,17 @@ func corpus(w *lib.Writer) {
 		runCase(w, in{Kind: "strf", S: hx(f), T: 0}) // C16-6
 		runCase(w, in{Kind: "strf", S: hx(f), T: 951827696})
 	}
+	// hunt obs-2/3/4: required date fields, week numbers, numeric strings read as tonumber reads them
+	runCase(w, in{Kind: "time", Tbl: []tfield{{Name: "year", Num: num(2024)}, {Name: "month", Num: num(5)}}})
+	runCase(w, in{Kind: "time", Tbl: nil})
+	runCase(w, in{Kind: "time", Tbl: []tfield{{Name: "year", Num: num(2024)}, {Name: "month", Num: num(5)}, {Name: "day", IsS: true, Str: hx("tenth")}}})
+	for _, h := range []string{"0e0", "0.", "0 ", "00E2", "08", "0"} {
+		runCase(w, in{Kind: "time", Tbl: []tfield{{Name: "year", Num: num(2000)}, {Name: "month", Num: num(1)}, {Name: "day", Num: num(1)}, {Name: "hour", IsS: true, Str: hx(h)}}})
+		runCase(w, in{Kind: "time", Tbl: []tfield{{Name: "year", Num: num(2000)}, {Name: "month", Num: num(1)}, {Name: "day", IsS: true, Str: hx(h)}}})
+	}
+	for _, t := range []int64{1000000000, 1735603200, 0} {
+		runCase(w, in{Kind: "strf", S: hx("%U %W"), T: t})
+	}
 	for _, t := range []int64{0, 86400 * 40, -1, 951782400, 951868799} {
 		runCase(w, in{Kind: "datet", T: t})
 	}
@@ -640,6 +651,7 @@ func genDates(w *lib.Writer, r *lib.Rand, tier string) {
 			d := daysFromCivil(y, md[0], md[1])
 			runCase(w, in{Kind: "datet", T: d * 86400})
 			runCase(w, in{Kind: "datet", T: d*86400 + 86399})
+			runCase(w, in{Kind: "strf", S: hx("%U %W %j %w %a"), T: d*86400 + 43200})
 		}
 	}
 	n := 300
@@ -650,7 +662,7 @@ func genDates(w *lib.Writer, r *lib.Rand, tier string) {
 		runCase(w, in{Kind: "datet", T: int64(r.U64()%uint64(2*span)) - span})
 	}
 	// every table directive alone, some unsupported ones, and random formats
-	dirs := "aAbBcdFHIjmMpPSwxXyYzZ"
+	dirs := "aAbBcdFHIjmMpPSUwWxXyYzZ"
 	nt := 8
 	if tier == "thorough" {
 		nt = 80
@@ -691,7 +703,8 @@ func genDates(w *lib.Writer, r *lib.Rand, tier string) {
 	if tier == "thorough" {
 		nm = 3000
 	}
-	strs := []string{"5", "05", " 7", "010", "0", "00", "0x10", "0X10", "abc", "", "12 ", "1e1", "-3", "007"}
+	strs := []string{"5", "05", " 7", "010", "0", "00", "0x10", "0X10", "abc", "", "12 ", "1e1", "-3", "007",
+		"0e0", "0.", "0 ", "0\n", "00E2", "1e0", "\t3\r", "tenth", "08", "0.0", "+4", "0x", "1_0"}
 	for i := 0; i < nm; i++ {
 		var tb []tfield
 		add := func(name string, lo, hi int, optional bool) {
@@ -714,8 +727,15 @@ func genDates(w *lib.Writer, r *lib.Rand, tier string) {
 		add("hour", 0, 23, true)
 		add("min", 0, 59, true)
 		add("sec", 0, 59, true)
-		if r.Chance(5) {
-			tb = tb[1:] // a missing year: the default -1 is used
+		switch r.Intn(12) { // a required field missing or not a number: os.time must raise
+		case 0:
+			tb = tb[1:]
+		case 1:
+			tb = append(tb[:1], tb[2:]...)
+		case 2:
+			tb = append(tb[:2], tb[3:]...)
+		case 3:
+			tb[r.Intn(len(tb))] = tfield{Name: tb[0].Name, IsB: true}
 		}
 		runCase(w, in{Kind: "time", Tbl: tb})
 	}
